@@ -343,6 +343,66 @@ fn main() {
             run_set(&format!("N{n}-ball{k}-base{bi}+perms"), n, vectors, true);
         }
     }
+    // N = 8: every placement of two or three real slots among dummies (clean or garbage-filled),
+    // the last real one agreeing, or conflicting in exactly one respect (block hash, asset,
+    // fee, duplicate nullifier): position- and count-dependent logic beyond N = 4
+    {
+        let n = 8usize;
+        let w = build_priv_wrapper(n, &leaf.data.common);
+        let cx = Cx::new(&w.data);
+        let reals: [Vec<usize>; 3] = [vec![1, 0, 0, 0, 1, 2, 2, 1, 0, 0], vec![1, 0, 0, 1, 1, 0, 3, 2, 1, 0], vec![1, 0, 0, 3, 2, 1, 1, 2, 0, 0]];
+        let dummies: [Vec<usize>; 2] = [vec![0; 10], vec![0, 0, 1, 1, 1, 3, 2, 4, 1, 1]];
+        let mut vectors: Vec<Vec<Slot>> = Vec::new();
+        let mut push = |pos: &[usize], var: usize, ds: usize| {
+            let v: Vec<Slot> = (0..n)
+                .map(|k| {
+                    let mut sl = if let Some(ri) = pos.iter().position(|&p| p == k) {
+                        let mut ix = reals[ri].clone();
+                        if ri + 1 == pos.len() {
+                            match var {
+                                1 => ix[0] = 2,
+                                2 => ix[1] = 1,
+                                3 => ix[2] = 1,
+                                4 => ix[3] = 0,
+                                _ => {}
+                            }
+                        }
+                        al.slot(&ix)
+                    } else {
+                        al.slot(&dummies[ds])
+                    };
+                    sl.pre = dig(7000 + k as u64);
+                    sl
+                })
+                .collect();
+            vectors.push(v);
+        };
+        for i in 0..n {
+            for j in i + 1..n {
+                for var in 0..5 {
+                    for ds in 0..2 {
+                        push(&[i, j], var, ds);
+                    }
+                }
+                for k in j + 1..n {
+                    for var in 1..5 {
+                        push(&[i, j, k], var, (i + j + k) % 2);
+                    }
+                }
+            }
+        }
+        let evals = eval_vectors(&w, &cx, &vectors);
+        for e in &evals {
+            per_run_oracles(e, &r, "N8-placements");
+        }
+        let acc = evals.iter().filter(|e| e.accept).count() as u64;
+        total += evals.len() as u64;
+        accepted += acc;
+        set_sizes.insert("N8-placements".to_string(), json!({"n": n, "vectors": evals.len(), "accepted": acc}));
+        for rep in &reports {
+            rep.distinct_many(evals.iter().map(|e| hash64(&e.slots)));
+        }
+    }
     // larger N: seeded, labelled sampled
     let mut sampled = 0u64;
     {
